@@ -54,10 +54,18 @@ class Part:
     def count(self, name, amount=1):
         self.counters[name] = self.counters.get(name, 0) + amount
 
+    def _room_for(self, key):
+        """At most MAX_VIOLATIONS_KEPT violations are kept per *family* (the key up to its first
+        colon), so that a flood from one clause does not crowd out the - possibly simpler, or
+        self-contained - counterexamples of another."""
+        family = key.split(":", 1)[0]
+        same = [v["key"] for v in self.violations if v["key"].split(":", 1)[0] == family]
+        return len(same) < MAX_VIOLATIONS_KEPT and key not in same and \
+            len(self.violations) < 6 * MAX_VIOLATIONS_KEPT
+
     def violation(self, key, msg, case):
         self.violation_count += 1
-        if len(self.violations) < MAX_VIOLATIONS_KEPT and \
-                all(v["key"] != key for v in self.violations):
+        if self._room_for(key):
             self.violations.append({"key": key, "msg": msg, "case": case})
         if key not in KNOWN_KEYS:
             self.unlisted_count += 1
@@ -86,8 +94,7 @@ class Part:
                 self.counters[name] = self.counters.get(name, 0) + amount
         self.violation_count += other.violation_count
         for viol in other.violations:
-            if len(self.violations) < MAX_VIOLATIONS_KEPT and \
-                    all(v["key"] != viol["key"] for v in self.violations):
+            if self._room_for(viol["key"]):
                 self.violations.append(viol)
         for item in other.samples:
             if len(self.samples) < 12:
